@@ -32,7 +32,7 @@ HEADER = "From Attrs Require Import Base C11.Model C11.Corr."
 CASE_TYPE = "case"
 CHECK = "check_case"
 MODEL = "model_of"
-RULE = ("four families. format: EVERY single-field class over repr in {True, False, leaf callable, "
+RULE = ("five families. format: EVERY single-field class over repr in {True, False, leaf callable, "
         "re-entrant callable} x {init set, init unset, init=False unset, init=False set} x 7 class "
         "namings (top-level, nested, function-local, nested-in-local, local-in-nested-local, undecorated "
         "subclass of a local class: local / top-level) x slots/dict x attr.s/define; then, on 3 namings, "
@@ -44,7 +44,7 @@ RULE = ("four families. format: EVERY single-field class over repr in {True, Fal
         "without an inherited __str__, frozen; repr() and str() compared as full strings. graph: seeded "
         "random heaps of 1-6 attrs instances/lists/dicts (plus scalars incl. NOTHING) with arbitrary "
         "references (cycles through instances, lists, dicts, self-references), 1-3 repr()/str() calls on "
-        "random nodes, optionally with the thread-local attribute already present. fault: for a graph "
+        "random nodes, optionally with the thread-local attribute already present. equal: a nested instance that compares == to an ancestor being rendered but is another object (hand-written __eq__ returning True / attrs __eq__ with every field eq=False / __eq__ that raises and so must never be called), nested directly and through list / tuple / dict, depth 2 and 3, slots and dict, attr.s and define, each also closed into a real cycle; the random graphs draw the same equality modes per class and contain tuples. fault: for a graph "
         "with custom repr callables, one case per call position k of a callable: the k-th call raises a "
         "marked exception, then repr again (observation = [raise, complete string], residue after "
         "each). threads: 2 and 3 threads forced (events, no sleeps) to be simultaneously inside repr "
